@@ -41,10 +41,11 @@ HasLegacy(e) == e.k = "ref" /\ \E i \in DOMAIN e.steps : e.steps[i].k = "legacy"
 
 \* ---- P (C10): reference leaves of an expression the schema treats as an arbitrary expression ------------
 \* through lists, objects (keys in parentheses and values), templates, operators, conditionals, for expressions,
-\* index keys, arguments of KNOWN functions and parentheses.  `self` says whether self.* is enabled here.
+\* index keys, arguments of KNOWN functions and parentheses.  `self` = [on : are self.* references enabled
+\* in the body that holds the attribute, level : nesting of that body (0 root, 1 in block b, 2 in b.in)].
 RECURSIVE Leaves(_, _, _)
 Leaves(e, path, self) ==
-  CASE e.k = "ref"   -> IF IsSelf(e) /\ ~self THEN {} ELSE {[path |-> path, addr |-> AddrOf(e), legacy |-> HasLegacy(e)]}
+  CASE e.k = "ref"   -> IF IsSelf(e) /\ ~self.on THEN {} ELSE {[path |-> path, addr |-> AddrOf(e), legacy |-> HasLegacy(e)]}
     [] e.k = "list"  -> UNION { Leaves(e.es[i], Idx(path, "es", i), self) : i \in DOMAIN e.es }
     [] e.k = "tmpl"  -> UNION { Leaves(e.es[i], Idx(path, "es", i), self) : i \in DOMAIN e.es }
     [] e.k = "obj"   -> UNION { (IF e.items[i].key.k \in {"id", "str"} THEN {} ELSE Leaves(e.items[i].key, Sub(Idx(path, "items", i), "key"), self))
@@ -62,7 +63,7 @@ Leaves(e, path, self) ==
 RECURSIVE OriginsP(_, _, _, _)
 OriginsP(c, e, path, self) ==
   CASE c.k = "any"   -> Leaves(e, path, self)
-    [] c.k = "ref"   -> IF e.k = "ref" /\ (~IsSelf(e) \/ self) THEN {[path |-> path, addr |-> AddrOf(e), legacy |-> HasLegacy(e)]} ELSE {}
+    [] c.k = "ref"   -> IF e.k = "ref" /\ (~IsSelf(e) \/ self.on) THEN {[path |-> path, addr |-> AddrOf(e), legacy |-> HasLegacy(e)]} ELSE {}
     [] c.k \in {"list", "set"} -> IF e.k = "list" THEN UNION { OriginsP(c.e, e.es[i], Idx(path, "es", i), self) : i \in DOMAIN e.es } ELSE {}
     [] c.k = "tuple" -> IF e.k = "list" THEN UNION { OriginsP(c.es[i], e.es[i], Idx(path, "es", i), self) : i \in DOMAIN e.es \cap DOMAIN c.es } ELSE {}
     [] c.k = "map"   -> IF e.k = "obj"
@@ -85,6 +86,128 @@ Blind(c, e, path) ==
   CASE c.k = "any" /\ c.t \in {"tuple", "object"} /\ e.k \in {"list", "obj"} -> {path}
     [] c.k \in {"list", "set"} /\ e.k = "list" -> UNION { Blind(c.e, e.es[i], Idx(path, "es", i)) : i \in DOMAIN e.es }
     [] c.k = "oneOf" -> UNION { Blind(c.cs[i], e, path) : i \in DOMAIN c.cs }
+    [] OTHER -> {}
+
+\* ---- what is declared in the fixed declarations of the replayed documents (block loc) ----------------------
+Tup(steps) == [i \in DOMAIN steps |-> <<steps[i].k, steps[i].v>>]
+Declared == { << <<"root", "loc">>, <<"attr", "s">> >>, << <<"root", "loc">>, <<"attr", "n">> >>, << <<"root", "loc">>, <<"attr", "b">> >>,
+              << <<"root", "loc">>, <<"attr", "l">> >>, << <<"root", "loc">>, <<"attr", "l">>, <<"idx", 0>> >>, << <<"root", "loc">>, <<"attr", "l">>, <<"idx", 1>> >>,
+              << <<"root", "loc">>, <<"attr", "o">> >>, << <<"root", "loc">>, <<"attr", "o">>, <<"attr", "k">> >>, << <<"root", "loc">>, <<"attr", "o">>, <<"attr", "n">> >>,
+              << <<"root", "loc">>, <<"attr", "m">> >>, << <<"root", "loc">>, <<"attr", "m">>, <<"attr", "a">> >> }
+\* block b (present in the document when the attribute sits at level >= 1): addressable, its body inferred, self.* = b.*
+DeclaredB == { << <<"root", "b">> >>, << <<"root", "b">>, <<"attr", "sa">> >>, << <<"root", "b">>, <<"attr", "part">> >>,
+               << <<"root", "b">>, <<"attr", "part">>, <<"idx", 0>> >>, << <<"root", "b">>, <<"attr", "part">>, <<"idx", 1>> >>,
+               << <<"root", "b">>, <<"attr", "part">>, <<"idx", 0>>, <<"attr", "pw">> >>, << <<"root", "b">>, <<"attr", "part">>, <<"idx", 0>>, <<"attr", "ph">> >>,
+               << <<"root", "b">>, <<"attr", "part">>, <<"idx", 1>>, <<"attr", "pw">> >>, << <<"root", "b">>, <<"attr", "part">>, <<"idx", 1>>, <<"attr", "ph">> >> }
+Resolves(e, self) ==
+  LET a == Tup(AddrOf(e)) IN
+  IF IsSelf(e) THEN self.on /\ self.level >= 1 /\ Len(a) > 1 /\ (<< <<"root", "b">> >> \o SubSeq(a, 2, Len(a))) \in DeclaredB
+  ELSE a \in Declared \/ (self.level >= 1 /\ a \in DeclaredB)
+HasSplat(e) == \E i \in DOMAIN e.steps : e.steps[i].k = "splat"
+
+\* ---- P (C13): tokens inside a value ---------------------------------------------------------------------------
+\* abstract token: <<type, part, path, i>>  part in "full" (the node), "step" (i-th step of a reference), "name" (function name)
+LitTok(e, path) == IF e.t = "string" THEN {<<"hcl-string", "full", path, 0>>}
+                   ELSE IF e.t = "number" THEN {<<"hcl-number", "full", path, 0>>}
+                   ELSE IF e.t = "bool" THEN {<<"hcl-bool", "full", path, 0>>} ELSE {}
+StepTok(e, path) ==
+  { <<(CASE e.steps[i].k \in {"root", "attr"} -> "hcl-referenceStep" [] e.steps[i].k \in {"idx", "legacy"} -> "hcl-number" [] OTHER -> "hcl-mapKey"), "step", path, i>>
+      : i \in {i \in DOMAIN e.steps : \A j \in 1..i : e.steps[j].k # "splat"} }
+RefTok(e, path, self) == IF (~IsSelf(e) \/ self.on) /\ Resolves(e, self) THEN StepTok(e, path) ELSE {}
+
+RECURSIVE AnyTok(_, _, _, _)
+AnyTok(e, path, self, t) ==
+  CASE e.k = "lit"   -> LitTok(e, path)
+    [] e.k = "ref"   -> RefTok(e, path, self)
+    [] e.k = "list"  -> UNION { AnyTok(e.es[i], Idx(path, "es", i), self, "elem") : i \in DOMAIN e.es }
+    [] e.k = "tmpl"  -> UNION { IF e.es[i].k = "text" THEN {<<"hcl-string", "full", Idx(path, "es", i), 0>>} ELSE AnyTok(e.es[i], Idx(path, "es", i), self, "string") : i \in DOMAIN e.es }
+    [] e.k = "obj"   -> UNION { (IF e.items[i].key.k \in {"id", "str"}
+                                 THEN {<<(IF t = "object" THEN "hcl-objectKey" ELSE "hcl-mapKey"), "full", Sub(Idx(path, "items", i), "key"), 0>>}
+                                 ELSE AnyTok(e.items[i].key, Sub(Idx(path, "items", i), "key"), self, "string"))
+                               \cup AnyTok(e.items[i].val, Sub(Idx(path, "items", i), "val"), self, "elem") : i \in DOMAIN e.items }
+    [] e.k = "bin"   -> AnyTok(e.l, Sub(path, "l"), self, "x") \cup AnyTok(e.r, Sub(path, "r"), self, "x")
+    [] e.k = "un"    -> AnyTok(e.e, Sub(path, "e"), self, "x")
+    [] e.k = "paren" -> AnyTok(e.e, Sub(path, "e"), self, t)
+    [] e.k = "cond"  -> AnyTok(e.c, Sub(path, "c"), self, "bool") \cup AnyTok(e.tt, Sub(path, "tt"), self, t) \cup AnyTok(e.ff, Sub(path, "ff"), self, t)
+    [] e.k = "index" -> AnyTok(e.e, Sub(path, "e"), self, "x") \cup AnyTok(e.key, Sub(path, "key"), self, "x")
+    [] e.k = "for"   -> AnyTok(e.coll, Sub(path, "coll"), self, "x") \cup AnyTok(e.body, Sub(path, "body"), self, "x")
+    [] e.k = "call"  -> IF e.fn \in KnownFns THEN {<<"hcl-functionName", "name", path, 0>>} \cup UNION { AnyTok(e.es[i], Idx(path, "es", i), self, "x") : i \in DOMAIN e.es } ELSE {}
+    [] OTHER -> {}
+
+RECURSIVE TokensP(_, _, _, _)
+TokensP(c, e, path, self) ==
+  CASE c.k = "any"   -> AnyTok(e, path, self, c.t)
+    [] c.k = "ref"   -> IF e.k = "ref" THEN RefTok(e, path, self) ELSE {}
+    [] c.k = "lit"   -> IF e.k = "lit" /\ e.t = c.t THEN LitTok(e, path) ELSE {}
+    [] c.k = "kw"    -> IF e.k = "kw" THEN {<<"hcl-keyword", "full", path, 0>>} ELSE {}
+    [] c.k = "typeDecl" -> IF e.k = "type" /\ e.v = "string" THEN {<<"hcl-typePrimitive", "full", path, 0>>} ELSE {}
+    [] c.k \in {"list", "set"} -> IF e.k = "list" THEN UNION { TokensP(c.e, e.es[i], Idx(path, "es", i), self) : i \in DOMAIN e.es } ELSE {}
+    [] c.k = "tuple" -> IF e.k = "list" THEN UNION { TokensP(c.es[i], e.es[i], Idx(path, "es", i), self) : i \in DOMAIN e.es \cap DOMAIN c.es } ELSE {}
+    [] c.k = "map"   -> IF e.k = "obj"
+                        THEN UNION { (IF e.items[i].key.k \in {"id", "str"} THEN {<<"hcl-mapKey", "full", Sub(Idx(path, "items", i), "key"), 0>>}
+                                      ELSE AnyTok(e.items[i].key, Sub(Idx(path, "items", i), "key"), self, "string"))
+                                     \cup TokensP(c.e, e.items[i].val, Sub(Idx(path, "items", i), "val"), self) : i \in DOMAIN e.items }
+                        ELSE {}
+    [] c.k = "obj"   -> IF e.k = "obj"
+                        THEN UNION { IF e.items[i].key.k \in {"id", "str"} /\ e.items[i].key.v \in DOMAIN c.as
+                                     THEN {<<"hcl-objectKey", "full", Sub(Idx(path, "items", i), "key"), 0>>}
+                                          \cup TokensP(c.as[e.items[i].key.v], e.items[i].val, Sub(Idx(path, "items", i), "val"), self)
+                                     ELSE {} : i \in DOMAIN e.items }
+                        ELSE {}
+    [] OTHER -> {}
+
+\* tokens only: items with a computed key under a map / object constraint that does not allow such keys
+OpenKeyItems(c, e, path) ==
+  IF c.k \in {"map", "obj"} /\ e.k = "obj"
+  THEN UNION { IF e.items[i].key.k \in {"id", "str"} THEN {} ELSE {Sub(Idx(path, "items", i), "key"), Sub(Idx(path, "items", i), "val")} : i \in DOMAIN e.items }
+  ELSE {}
+
+\* hover only: the computed key itself of such an item under a map constraint
+OpenKeyHover(c, e, path) ==
+  IF c.k = "map" /\ e.k = "obj"
+  THEN UNION { IF e.items[i].key.k \in {"id", "str"} THEN {} ELSE {Sub(Idx(path, "items", i), "key")} : i \in DOMAIN e.items }
+  ELSE {}
+\* origins / resolution only: a computed key under an object constraint (is it a place that admits an expression?)
+OpenKeyOrigin(c, e, path) ==
+  IF c.k = "obj" /\ e.k = "obj"
+  THEN UNION { IF e.items[i].key.k \in {"id", "str"} THEN {} ELSE {Sub(Idx(path, "items", i), "key")} : i \in DOMAIN e.items }
+  ELSE {}
+
+\* every literal collection somewhere inside a value whose constraint is an any-expression of dynamic type
+RECURSIVE Colls(_, _)
+Colls(e, path) ==
+  CASE e.k \in {"list", "obj"} -> {path}
+    [] e.k = "tmpl" -> UNION { IF e.es[i].k = "text" THEN {} ELSE Colls(e.es[i], Idx(path, "es", i)) : i \in DOMAIN e.es }
+    [] e.k = "call" -> UNION { Colls(e.es[i], Idx(path, "es", i)) : i \in DOMAIN e.es }
+    [] e.k = "bin"  -> Colls(e.l, Sub(path, "l")) \cup Colls(e.r, Sub(path, "r"))
+    [] e.k \in {"un", "paren"} -> Colls(e.e, Sub(path, "e"))
+    [] e.k = "cond" -> Colls(e.c, Sub(path, "c")) \cup Colls(e.tt, Sub(path, "tt")) \cup Colls(e.ff, Sub(path, "ff"))
+    [] e.k = "index" -> Colls(e.e, Sub(path, "e")) \cup Colls(e.key, Sub(path, "key"))
+    [] e.k = "for"  -> Colls(e.coll, Sub(path, "coll")) \cup Colls(e.body, Sub(path, "body"))
+    [] OTHER -> {}
+
+\* Regions of a value about which the statement (or a recorded finding) leaves tokens / hover open: arguments of unknown
+\* functions, literal collections under an any-expression constraint of dynamic type, the blind spots of Blind(),
+\* one-of constraints (which alternative interprets the value), type declarations other than a primitive name, splats.
+RECURSIVE OpenTok(_, _, _)
+OpenTok(c, e, path) ==
+  Blind(c, e, path)
+  \cup (CASE c.k = "oneOf" -> {path}
+          [] c.k = "typeDecl" /\ ~(e.k = "type" /\ e.v = "string") /\ e.k # "ref" -> {path}
+          [] c.k = "any" /\ c.t = "dynamic" -> Colls(e, path)
+          [] c.k \in {"list", "set"} /\ e.k = "list" -> UNION { OpenTok(c.e, e.es[i], Idx(path, "es", i)) : i \in DOMAIN e.es }
+          [] OTHER -> {})
+RECURSIVE OpenIn(_, _)
+OpenIn(e, path) ==   \* open sub-regions inside an arbitrary expression
+  CASE e.k = "call" -> IF e.fn \in KnownFns THEN UNION { OpenIn(e.es[i], Idx(path, "es", i)) : i \in DOMAIN e.es } ELSE {path}
+    [] e.k = "ref"  -> IF HasSplat(e) THEN {path} ELSE {}
+    [] e.k \in {"list", "tmpl"} -> UNION { OpenIn(e.es[i], Idx(path, "es", i)) : i \in DOMAIN e.es }
+    [] e.k = "obj"  -> UNION { OpenIn(e.items[i].val, Sub(Idx(path, "items", i), "val")) : i \in DOMAIN e.items }
+    [] e.k = "bin"  -> OpenIn(e.l, Sub(path, "l")) \cup OpenIn(e.r, Sub(path, "r"))
+    [] e.k \in {"un", "paren"} -> OpenIn(e.e, Sub(path, "e"))
+    [] e.k = "cond" -> OpenIn(e.c, Sub(path, "c")) \cup OpenIn(e.tt, Sub(path, "tt")) \cup OpenIn(e.ff, Sub(path, "ff"))
+    [] e.k = "index" -> OpenIn(e.e, Sub(path, "e")) \cup OpenIn(e.key, Sub(path, "key"))
+    [] e.k = "for"  -> OpenIn(e.coll, Sub(path, "coll")) \cup OpenIn(e.body, Sub(path, "body"))
     [] OTHER -> {}
 
 IsPrefixStr(p, s) == Len(p) <= Len(s) /\ SubSeq(s, 1, Len(p)) = p
